@@ -64,6 +64,14 @@ impl BlockDecoder {
                 return Err(FluteError::new("Reed Solomon GF2M is not implemented"));
             }
             oti::FECEncodingID::RaptorQ => {
+                // Maximum number of source symbols per block supported by RaptorQ (RFC 6330 K'_max)
+                if nb_source_symbols > 56403 {
+                    return Err(FluteError::new(format!(
+                        "RaptorQ block of {} source symbols is not supported",
+                        nb_source_symbols
+                    )));
+                }
+
                 if let Some(SchemeSpecific::RaptorQ(scheme)) = oti.scheme_specific.as_ref() {
                     let codec = fec::raptorq::RaptorQDecoder::new(
                         sbn,
